@@ -91,11 +91,12 @@ def beq : Num → Num → Bool
   | flt a, flt b => a == b || (F64.isZero a && F64.isZero b)
   | _, _ => false
 
-/-- `n.as_f64().is_some_and(f64::is_normal)` : an integer converts to a normal float iff non-zero. -/
-def asF64Normal : Num → Bool
+/-- `n.as_f64().is_some_and(|f| f != 0.0 && !f.is_nan())` : an integer converts to a non-zero float
+    iff it is non-zero; a finite float is non-zero iff it is not ±0.0. -/
+def asF64NonZero : Num → Bool
   | pos n => n != 0
   | neg _ => true
-  | flt b => F64.isNormal b
+  | flt b => !F64.isZero b
 
 /-- `n.as_f64().is_some_and(|f| !f.is_nan())` : always true for finite numbers. -/
 def asF64NotNan : Num → Bool
